@@ -113,6 +113,20 @@ def run_shard_main(prop, tier, seed, shard, nshards, budget_s, out_path):
         os.sched_setaffinity(0, {cpus[shard % len(cpus)]})
     except (AttributeError, OSError):
         pass
+    cov_hits = None
+    if os.environ.get("VERIF_COVER") and hasattr(sys, "monitoring"):
+        # which lines of the library does this workload execute at all? (tools/libcover.py)
+        cov_hits = set()
+        repo_dir = os.path.realpath(os.environ.get("VERIF_REPO", "/repo")) + os.sep
+        monitoring = sys.monitoring
+
+        def _line(code, line):
+            if code.co_filename.startswith(repo_dir):
+                cov_hits.add((code.co_filename[len(repo_dir):], line))
+            return monitoring.DISABLE
+        monitoring.use_tool_id(monitoring.COVERAGE_ID, "verif-libcover")
+        monitoring.register_callback(monitoring.COVERAGE_ID, monitoring.events.LINE, _line)
+        monitoring.set_events(monitoring.COVERAGE_ID, monitoring.events.LINE)
     try:
         if hasattr(mod, "run_shard"):
             mod.run_shard(ctx)
@@ -144,6 +158,9 @@ def run_shard_main(prop, tier, seed, shard, nshards, budget_s, out_path):
         ctx.violations.setdefault("HARNESS-ERROR", []).append(
             {"msg": traceback.format_exc()[-3000:], "case": None, "witness": None})
         ctx.vcount["HARNESS-ERROR"] = ctx.vcount.get("HARNESS-ERROR", 0) + 1
+    if cov_hits is not None:
+        with open(os.path.join(os.environ["VERIF_COVER"], "%s-%d.json" % (prop, shard)), "w") as f:
+            json.dump(sorted(cov_hits), f)
     with open(out_path, "w") as f:
         json.dump(ctx.result(), f, default=_json_default)
 
